@@ -10,6 +10,7 @@
 #include "../custom_operator/definition.h"
 #include "../num_traits/to_rep.h"
 #include "../num_traits/width.h"
+#include "../numbers/signedness.h"
 #include "../wide-integer.h"
 #include "definition.h"
 
@@ -33,6 +34,21 @@ namespace cnl {
         {
             using lhs_rep = typename wide_tag<LhsDigits, LhsNarrowest>::rep;
             using rhs_rep = typename wide_tag<RhsDigits, RhsNarrowest>::rep;
+            if constexpr (
+                    (_impl::any_uintwide<lhs_rep> || _impl::any_uintwide<rhs_rep>)
+                    && numbers::signedness_v<lhs_rep> != numbers::signedness_v<rhs_rep>) {
+                // a negative number is less than every number of an unsigned type; left to the
+                // conversions below, it would turn into a large positive number of that type
+                if constexpr (numbers::signedness_v<lhs_rep>) {
+                    if (_impl::to_rep(lhs) < 0) {
+                        return Operator()(-1, 0);
+                    }
+                } else {
+                    if (_impl::to_rep(rhs) < 0) {
+                        return Operator()(0, -1);
+                    }
+                }
+            }
             if constexpr (
                     _impl::any_uintwide<lhs_rep> && _impl::any_uintwide<rhs_rep>
                     && _impl::width<lhs_rep> != _impl::width<rhs_rep>) {
